@@ -17,7 +17,12 @@ def run(tier):
                cat={"b1": attr("p1", "far", prev="p1"), "b2": attr("p2", "p3", prev="p1"), "b3": attr("app", "far"), "b4": attr("p1", "bcast", prev="p1")})
     fam4 = dict(peers=P + ["p4"], enabled=["Receive", "PeerUp", "PeerDown", "SetFail", "RetryTick"],
                 cat={"b1": attr("p1", "far", prev="p2"), "b2": attr("p3", "far", prev="p3", copies=4)})
-    plans = []
+    # DTLSR link-state broadcasts carrying data of one origin: fresh, repeated (same timestamp, arriving over another peer) and
+    # overtaken (older): whatever the data is worth, the bundle is relayed to everybody but the peers it came from
+    lsfam = dict(peers=P, enabled=["Receive", "PeerUp", "PeerDown", "RetryTick"],
+                 cat={"l1": attr("p1", "bcast", prev="p1", lsd=20), "l2": attr("p2", "bcast", prev="p2", lsd=20), "l3": attr("p3", "bcast", prev="p3", lsd=10)})
+    plans = [dict(name="link-state", fam=lsfam, algo="dtlsr", budget=1, steps=4 if quick else 6, sim=(40, 10) if quick else (1000, 14),
+                  cap=150 if quick else None, mc=not quick)]
     for a in ALGOS:
         plans.append(dict(name="prev", fam=fam, algo=a, budget=4, steps=4 if quick else 5, sim=(30, 12) if quick else (800, 18),
                           cap=170 if quick else None, mc=(not quick or a in ("epidemic", "dtlsr"))))
